@@ -1,4 +1,5 @@
-import Unsized.PtrHonestN5
+import Unsized.PtrHonestN8
+import Unsized.PtrHonestS1
 namespace Unsized.Ptr
 open Common Unsized Unsized.Text Unsized.Machine Unsized.PtrT Unsized.PtrM
 
@@ -17,7 +18,7 @@ theorem pctx_root {w : World} {s : Shape} {v : Val} (c : PCtx w .A s v) (R : Ptr
   have h1 := c.bytes; have h2 := c.calm; have h3 := c.big; have h4 := c.far
   simp only [World.get] at h1 h2 h3 h4
   exact ⟨c.good, c.ok, c.nd, by simpa [World.set, World.get] using h1, by simpa [World.set, World.get] using h2,
-    ownsOwn_A _, by simpa [World.set, World.get] using h3, by simpa [World.set, World.get] using h4⟩
+    ownsOwn_A _, ⟨by simpa [World.set, World.get] using h4, by simpa [World.set, World.get] using h3⟩⟩
 
 theorem resolve_prefix (p : List Step) : ∀ (s : Shape) (v : Val) (q : List Step) (t : Shape) (u : Val),
     resolve s v (p ++ q) = .ok (t, u) → ∃ t1 u1, resolve s v p = .ok (t1, u1) ∧ resolve t1 u1 q = .ok (t, u) := by
@@ -102,21 +103,24 @@ theorem resolve_not_disc (p : List Step) : ∀ (s : Shape) (v : Val) (t : Shape)
 
 /-- The ops whose pointer-level effect is proved: EVERY op of the op language on every node kind. The only
 condition comes from the C03 machine itself: for `UnsizedMap::insert` on a key the map already holds it replaces
-the cached element pointer only when its `start_ptr` is defined (`PtrM.startAddr` looks two struct levels deep),
-so that is required of the element shape. -/
+the cached element pointer only when its `start_ptr` is defined, and `PtrM.startAddr` looks two struct levels
+deep; so the element shape must be `startOk` (decidable, `Ptr.startOk_start`; true of every leaf, container and
+enum shape, of every struct with a sized part, and of sized-part-less structs nested at most two deep). -/
 def Covered (sh : Shape) (u : Val) (op : Op) : Prop :=
   ∀ kw e es k, sh = .umap kw e → u = .umap es →
     (op = .uminsert k ∨ ∃ xs, op = .uminsertArr k xs) → Spec.hasUKey (rdLE k) es = true →
-    ∀ (x : Val) (B : Nat), ∃ a, startAddr (treeOf e x B) = some a
+    startOk e = true
 
-/-- The side condition of one op (C01's `CmdOk` at node level): a successful model step stays inside the
-allocation; a failing one is not the registered "initialiser fails behind the resize" finding, and a composite
-op (`str_set`, `Set/Map::insert_all`) does not fail half-way (the other registered finding) — it either
-succeeds or is rejected as inapplicable. -/
+/-- The side condition of one op (C01's `CmdOk` at node level), needed for the single-resize ops only: a
+successful model step stays inside the allocation, and a failing one is not the registered "initialiser fails
+behind the resize" finding. The composite ops (`str_set`, `Set/Map::insert_all`) need NO side condition: every
+exit is covered, including the registered findings (a refused/failed resize half-way leaves the partially
+updated value, for which the pointers are honest). -/
 def NodeOk (s : Shape) (v : Val) (π : List Step) (t : Shape) (u : Val) (op : Op) (orig : Nat) : Prop :=
+  simpleOp op = true →
   match Spec.applyNode t u op with
   | .ok (u', _) => (plug s v π (encode t u')).length ≤ orig + maxIncrease
-  | .error e => e ≠ .initFail ∧ (simpleOp op = false → e = .bad)
+  | .error e => e ≠ .initFail
 
 /-- `opAt` on any covered node. -/
 theorem opAt_hon {w : World} {s : Shape} {v : Val} (c : PCtx w .A s v) (π : List Step) (t : Shape) (u : Val)
@@ -128,19 +132,10 @@ theorem opAt_hon {w : World} {s : Shape} {v : Val} (c : PCtx w .A s v) (π : Lis
   by_cases hsimple : simpleOp op = true
   case neg =>
     have hs' : simpleOp op = false := by simpa using hsimple
-    refine opAt_hon_comp c π t u hres T hp hT op hs' ?_
-    unfold NodeOk at hcmd
-    unfold CompOk
-    cases hsp : Spec.applyNode t u op with
-    | ok r => rw [hsp] at hcmd; exact hcmd
-    | error e => rw [hsp] at hcmd; exact hcmd.2 hs'
+    exact opAt_hon_comp_all c π t u hres T hp hT op hs'
   have hcmd' : match Spec.applyNode t u op with
       | .ok (u', _) => (plug s v π (encode t u')).length ≤ w.a.mem.orig + maxIncrease
-      | .error e => e ≠ .initFail := by
-    unfold NodeOk at hcmd
-    cases hsp : Spec.applyNode t u op with
-    | ok r => rw [hsp] at hcmd; exact hcmd
-    | error e => rw [hsp] at hcmd; exact hcmd.1
+      | .error e => e ≠ .initFail := hcmd hsimple
   by_cases hl : ∃ e, t = .ulist e
   · obtain ⟨e, rfl⟩ := hl
     have gt : Good (.ulist e) u := (Focus.sub ⟨c.good, hres, c.bytes⟩)
@@ -158,7 +153,7 @@ theorem opAt_hon {w : World} {s : Shape} {v : Val} (c : PCtx w .A s v) (π : Lis
           · exact ⟨.default, Or.inl ⟨rfl, rfl⟩⟩
           · exact ⟨.array xs, Or.inr ⟨xs, rfl, rfl⟩⟩
         obtain ⟨init, hop⟩ := hop
-        exact opAt_hon_umap_at c π kw e es hres T hp hT op hsimple k init hop hhas (hcov kw e es k rfl rfl hk hhas) hcmd'
+        exact opAt_hon_umap_at c π kw e es hres T hp hT op hsimple k init hop hhas (startOk_start e (hcov kw e es k rfl rfl hk hhas)) hcmd'
       · exact opAt_hon_umap c π kw e es hres T hp hT op hsimple
           (srcOf_of_nokey F c.calm op (fun k hk => by
             cases hh : Spec.hasUKey (rdLE k) es with
